@@ -60,6 +60,10 @@ def _worker(harness, items, timeout):
                 out.append((name, {"status": "harness-garbled", "error": l[:300]}))
         if len(got) >= len(todo):
             break
+        if out and out[-1][1].get("exit_after") and got:
+            # the harness reported a non-terminating instrumented run and exited on purpose
+            todo = todo[len(got):]
+            continue
         dead = todo[len(got)]
         out.append((dead[0], {"status": "harness-died", "error": (err or "")[-600:]}))
         todo = todo[len(got) + 1:]
